@@ -19,6 +19,7 @@ def plan_C01(ctx):
     run_family(ctx, "many_fields", n_of(ctx, 8, 120), perfile=2, seed_off=2)
     run_family(ctx, "extremes", n_of(ctx, 3, 36), perfile=1)                    # long names/terms, hundreds of terms and locations
     run_family(ctx, "huge", n_of(ctx, 2, 8), perfile=1)                          # document numbers beyond 16 bits
+    run_family(ctx, "giant_posting", n_of(ctx, 1, 6), perfile=1)                 # > 65535 locations in one posting
     if not ctx.quick:
         run_family(ctx, "field_limit", 2, perfile=1)                            # 65535 fields: the 16-bit field id limit
     canary(ctx)
@@ -117,7 +118,7 @@ def e1_int_coder(ctx):
 def e1_loc_stream(ctx):
     """E1: writer's size prefix and reader's framing of the location stream agree for every read/skip pattern."""
     tlc_mc(ctx, "LocStream", "MC_LocStream.cfg")
-    devs(ctx, "LocStream", ["SizeOfIdPlusOne", "SizeWithoutEnd", "PrefixCountsRecords"], "Consumed")
+    devs(ctx, "LocStream", ["SizeOfIdPlusOne", "SizeWithoutEnd", "PrefixCountsRecords"], "AllInv")
 
 
 def e2_loc_stream(ctx, num):
@@ -127,6 +128,14 @@ def e2_loc_stream(ctx, num):
                     extra=["-simulate", "num=%d" % (2 * num), "-depth", "8", "-seed", str(ctx.seed)])
     behs = lift.dedupe(behs)[:num]
     run_scenarios(ctx, [lift.lift_locstream(b, i) for i, b in enumerate(behs)], "e2loc", perfile=10, shards=4)
+
+
+def e1_merge_term_loop(ctx):
+    """E1: the per-field term loop of the merger (prevTerm nil/empty, prepareNewTerm, finishTerm, last*, 1-hit)."""
+    tlc_mc(ctx, "MergeTermLoop", "MC_MergeTermLoop.cfg")
+    if not ctx.quick:
+        tlc_mc(ctx, "MergeTermLoop", "MC_MergeTermLoop_3seg.cfg")
+    devs(ctx, "MergeTermLoop", ["FoldedCondition", "OneHitLeq", "CardCountsDropped"], "AllRight", workers=8)
 
 
 def e1_load_layout(ctx):
@@ -232,6 +241,7 @@ def plan_C05(ctx):
     run_family(ctx, "iter_share", n_of(ctx, 120, 2500), perfile=n_of(ctx, 20, 40))   # several iterations alive at once, Close, prealloc hand-over
     run_family(ctx, "huge", n_of(ctx, 4, 16), perfile=1, seed_off=3)
     run_family(ctx, "card_boundary", n_of(ctx, 6, 24), perfile=1, seed_off=1)
+    run_family(ctx, "giant_posting", n_of(ctx, 1, 6), perfile=1, seed_off=1)
     require_cov(ctx, "tag:onehit", "tag:multichunk", "tag:excluded", "tag:advance", "tag:replace", "onehit_iter")
     canary(ctx)
 
@@ -251,6 +261,7 @@ def plan_C02(ctx):
     e2_merge_algo(ctx)
     e1_enumerator(ctx)
     e1_merge_algo(ctx)
+    e1_merge_term_loop(ctx)
     e1_chunking(ctx)
     e1_loc_stream(ctx)
     e2_loc_stream(ctx, n_of(ctx, 40, 600))
@@ -305,12 +316,14 @@ def plan_C07(ctx):
     e1_dv(ctx)
     run_family(ctx, "dv_small", n_of(ctx, 200, 4000), perfile=n_of(ctx, 20, 40))
     run_family(ctx, "dv_walk", n_of(ctx, 24, 300), perfile=2)
+    run_family(ctx, "dv_merge_order", n_of(ctx, 8, 80), perfile=2, seed_off=1)
     require_cov(ctx, "tag:dv_chunk_gap")
     canary(ctx)
 
 
 def plan_C08(ctx):
     e1_reuse(ctx)
+    e1_merge_term_loop(ctx)
     run_family(ctx, "dict_ranges", n_of(ctx, 250, 5000), perfile=n_of(ctx, 20, 40))
     run_family(ctx, "dict_interleave", n_of(ctx, 120, 2500), perfile=n_of(ctx, 20, 40))
     run_family(ctx, "merge_obs", n_of(ctx, 100, 1500), perfile=20, seed_off=6)
@@ -351,6 +364,7 @@ def plan_C09(ctx):
     require_cov(ctx, "tag:nested", "tag:twoblocks")
     run_family(ctx, "conc_sched", n_of(ctx, 60, 1500), perfile=n_of(ctx, 10, 30))
     run_family(ctx, "conc_free", n_of(ctx, 40, 800), perfile=n_of(ctx, 8, 20))
+    run_family(ctx, "conc_persist", n_of(ctx, 10, 200), perfile=10, seed_off=1)
     race_pass(ctx, "conc_free", n_of(ctx, 24, 300), "C09")
     canary(ctx)
 
@@ -367,6 +381,7 @@ def plan_C10(ctx):
 
 def plan_C11(ctx):
     e1_writer_crc(ctx)
+    run_family(ctx, "conc_persist", n_of(ctx, 20, 300), perfile=10)       # overlapping WriteTo calls on one segment object
     run_family(ctx, "roundtrip", n_of(ctx, 150, 3000), perfile=n_of(ctx, 10, 30), seed_off=7)
     run_family(ctx, "merge_obs", n_of(ctx, 150, 3000), perfile=20, seed_off=8)
     canary(ctx)
@@ -395,6 +410,7 @@ def plan_C14(ctx):
     run_family(ctx, "pool_seq", n_of(ctx, 150, 3000), perfile=n_of(ctx, 15, 40), env_extra={"VERIF_INLINE": "1"})
     run_family(ctx, "pool_big", n_of(ctx, 4, 40), perfile=1, env_extra={"VERIF_INLINE": "1"})
     run_family(ctx, "wide_repeat", n_of(ctx, 12, 200), perfile=4, env_extra={"VERIF_INLINE": "1"})   # wide schema, sparse stored fields
+    run_family(ctx, "pool_vocab", n_of(ctx, 4, 24), perfile=1, env_extra={"VERIF_INLINE": "1"})     # > 10 000 distinct terms vs small vocabularies
     run_family(ctx, "conc_build", n_of(ctx, 40, 600), perfile=n_of(ctx, 10, 20))
     race_pass(ctx, "conc_build", n_of(ctx, 16, 200), "C14")
     require_cov(ctx, "pooled_builds")
@@ -405,6 +421,7 @@ def plan_C15(ctx):
     e2_gen_api(ctx, n_of(ctx, 60, 1200))
     require_cov(ctx, "tag:api_merge_with_bitmap", "tag:api_prealloc", "tag:api_stats_add")
     run_family(ctx, "immut", n_of(ctx, 80, 1500), perfile=n_of(ctx, 8, 20))
+    run_family(ctx, "dv_merge_order", n_of(ctx, 8, 80), perfile=2)                  # inputs read again after merges (small before large)
     canary(ctx)
 
 
@@ -415,6 +432,7 @@ def plan_C16(ctx):
     run_family(ctx, "roundtrip", n_of(ctx, 60, 1000), perfile=10, seed_off=12)
     run_family(ctx, "many_fields", n_of(ctx, 12, 200), perfile=2)
     run_family(ctx, "merge_chain", n_of(ctx, 40, 600), perfile=10, seed_off=4)
+    run_family(ctx, "big_freq", n_of(ctx, 8, 80), perfile=4)                      # sums beyond 2^32 / 2^35 / 2^36
     canary(ctx)
 
 
@@ -422,6 +440,7 @@ def plan_C17(ctx):
     e2_merge_algo(ctx)
     e1_algebra(ctx)
     e1_merge_algo(ctx)
+    e1_merge_term_loop(ctx)
     run_family(ctx, "assoc", n_of(ctx, 120, 2500), perfile=n_of(ctx, 10, 20))
     run_family(ctx, "twin_merge", n_of(ctx, 60, 1200), perfile=10)
     run_family(ctx, "card_boundary", n_of(ctx, 6, 24), perfile=1, seed_off=2)
